@@ -357,6 +357,7 @@ def check(ctx, run):  # noqa: F811
     from ..precision import closed_form_precision_rule
     closed_form_precision_rule(ctx, run, "C07.R7", ["d1", "d2", "ncdf", "npdf", "bs_european_price", "bs_european_binary_price", "bs_american_binary_price", "bs_lookback_price"],
                                "float time to maturity / volatility / strike and constants are not rounded to the default dtype")
+    derivative_state_precision(ctx, run)
     factory_lookup(ctx, run)
     B.default_call_is_call(ctx.prog, ctx.interp, run, "C07.R5", ["bs_european_price", "bs_european_binary_price"])
     if ctx.tier == "thorough":
@@ -392,3 +393,38 @@ def precision_rule(ctx, run):
         if lossy:
             run.fail(Finding("C07.R7", fi.qualname, "; ".join(lossy), "the strike is rounded to float32 before it enters float64 arithmetic: float64 prices lose half their digits for strikes that are not float32 numbers",
                              file=str(prog.modules[fi.module].path), line=fi.node.lineno))
+
+
+def derivative_state_precision(ctx, run):
+    """R7d: the state a pricing module takes from its derivative (moneyness, log moneyness, their running maxima, time to maturity) is
+    computed in the dtype of the simulated prices with the strike as given: the strike is not packed into a default-dtype tensor and no
+    part of the state is computed in an unrelated float dtype and converted afterwards."""
+    from .. import world as W
+    from ..dtypes import Provenance
+    from ..interp import Unsupported
+    from ..precision import lossy
+    prog, interp = ctx.prog, ctx.interp
+    MIX = "pfhedge.instruments.derivative.base.OptionMixin"
+    run.require("C07.R7d", 10)
+    for meth, kw in (("moneyness", {"log": False}), ("moneyness", {"log": True}), ("log_moneyness", {}), ("max_moneyness", {"log": False}),
+                     ("max_moneyness", {"log": True}), ("max_log_moneyness", {}), ("time_to_maturity", {})):
+        fi = prog.lookup_method(MIX, meth)
+        if fi is None:
+            raise AnalysisError(f"anchor vanished: OptionMixin.{meth}")
+        for mode, ts in (("step", W.integer("i")), ("all steps", None)):
+            try:
+                res = [r for r in interp.explore(fi, [ts], dict(kw), self_obj=W.option()) if not r["raises"]]
+            except Unsupported as ex:
+                raise AnalysisError(f"OptionMixin.{meth}: {ex}")
+            if not res:
+                raise AnalysisError(f"OptionMixin.{meth} ({mode}): no analysable path")
+            bad = lossy(res, None)
+            for r in res:
+                pv = Provenance()
+                pv.of(r["value"])
+                bad += [f"{str(t.args[0])[:100]} is computed in a float dtype unrelated to the prices and converted afterwards" for t, v in pv.narrowed]
+            label = f"OptionMixin.{meth}({', '.join(f'{k}={v}' for k, v in kw.items())}) [{mode}]"
+            run.oblige("C07.R7d", f"{label}: computed at the precision of the simulated prices", not bad, "; ".join(bad) or "strike used as given, arithmetic in the dtype of the prices")
+            if bad:
+                run.fail(Finding("C07.R7d", fi.qualname, f"{label}: {bad[0]}"[:300], "the state handed to the Black-Scholes modules is only float32-accurate for a float64 derivative",
+                                 file=str(prog.modules[fi.module].path), line=fi.node.lineno, case=mode))
